@@ -575,7 +575,19 @@ func (w *World) Dump(ctx sdk.Context) M {
 		for _, d := range app.StakingKeeper.GetAllDelegations(ctx) {
 			dels = append(dels, M{"del": w.Addr.ID(d.DelegatorAddress), "val": w.Val.ID(d.ValidatorAddress), "shares": decN(d.Shares)})
 		}
-		st["staking"] = M{"validators": vals, "delegations": dels}
+		// pending unbonding entries per (delegator, validator): x/staking rejects an Undelegate beyond MaxEntries
+		ubds := []M{}
+		app.StakingKeeper.IterateUnbondingDelegations(ctx, func(_ int64, u stakingtypes.UnbondingDelegation) bool {
+			ubds = append(ubds, M{"del": w.Addr.ID(u.DelegatorAddress), "val": w.Val.ID(u.ValidatorAddress), "entries": len(u.Entries)})
+			return false
+		})
+		sort.Slice(ubds, func(i, j int) bool {
+			if ubds[i]["del"].(int) != ubds[j]["del"].(int) {
+				return ubds[i]["del"].(int) < ubds[j]["del"].(int)
+			}
+			return ubds[i]["val"].(int) < ubds[j]["val"].(int)
+		})
+		st["staking"] = M{"validators": vals, "delegations": dels, "unbonding": ubds}
 	}
 	st["global"] = decN(nodeGlobal())
 	if len(bad) > 0 {
